@@ -44,18 +44,24 @@ fn decoder(opts: &str, key: &[u8]) -> MessageDecoder {
         return MessageDecoderBuilder::default().build();
     }
     let o = opts.as_bytes();
-    let mut b = DecoderContextBuilder::default().with_key(HMACKey::new_short_term(
-        std::str::from_utf8(key).unwrap(),
-    ).unwrap());
+    // the key is given first, in the middle or last (the options are independent switches)
+    static ORDER: std::sync::atomic::AtomicUsize = std::sync::atomic::AtomicUsize::new(0);
+    let at = ORDER.fetch_add(1, std::sync::atomic::Ordering::Relaxed) % 4;
+    let hk = || HMACKey::new_short_term(std::str::from_utf8(key).unwrap()).unwrap();
+    let mut b = DecoderContextBuilder::default();
+    if at == 0 { b = b.with_key(hk()) }
     if o[0] == b'1' {
         b = b.with_validation();
     }
+    if at == 1 { b = b.with_key(hk()) }
     if o[1] == b'1' {
         b = b.with_unknown_data();
     }
+    if at == 2 { b = b.with_key(hk()) }
     if o[2] == b'1' {
         b = b.not_ignore();
     }
+    if at == 3 { b = b.with_key(hk()) }
     MessageDecoderBuilder::default().with_context(b.build()).build()
 }
 
